@@ -180,13 +180,24 @@ def isAssign (v e : String) : V2El → Bool
   | .assign x y => x == v && y == e
   | _ => false
 
-/-- `_user_said` (and the two sibling overrides): `run input rails` is awaited, at top level, after the
-    user utterance was matched, and it is the last statement. -/
+/-- `_user_said` (and the two sibling overrides): after the user utterance was matched, `$text` is
+    assigned from the event (`$event.final_transcript` / `$event.interim_transcript`) at TOP level — not
+    inside a branch, so also when the waiting flow passed a literal or a regular expression —, then
+    `$user_message = $text`, and the last statement awaits `run input rails $user_message`. -/
 def userSaidOk (prog : List V2Line) : Bool :=
-  match prog.getLast? with
-  | some l => l.depth == 0 && isAwait "run input rails" l.el &&
-      (prog.any fun l => match l.el with | .matchSpec "UtteranceUserAction" => true | .matchSpec "UnhandledEvent" => true | _ => false)
-  | none => false
+  (match prog.getLast? with
+   | some l => l.depth == 0 && l.el == .await "run input rails" "$0=$user_message" ""
+   | none => false) &&
+  (prog.any fun l => match l.el with | .matchSpec "UtteranceUserAction" => true | .matchSpec "UnhandledEvent" => true | _ => false) &&
+  match findIdx? (fun l => l.depth == 0 &&
+            (l.el == .assign "text" "$event.final_transcript" || l.el == .assign "text" "$event.interim_transcript")) prog 0,
+        findIdx? (fun l => l.depth == 0 && l.el == .assign "user_message" "$text") prog 0 with
+  | some a, some b =>
+    decide (a < b) &&
+    -- no other assignment to `$text` / `$user_message` after them
+    countP (fun l => match l.el with | .assign "text" _ => true | _ => false) prog == 1 &&
+    countP (fun l => match l.el with | .assign "user_message" _ => true | _ => false) prog == 1
+  | _, _ => false
 
 /-- `_bot_say`: the only `await UtteranceBotAction` is the last top-level statement, carries
     `script=$text`, and is preceded by `if not $output_rails_in_progress` / `await run output rails $text`. -/
